@@ -150,6 +150,16 @@ def run(ctx):
     for c in wide_chars(r, ctx.pick(30, 1500)):
         f1, f2 = r.sample(STR_FIELDS, 2)
         bodies.append(["Resolution = 192", f'{PASCAL[f1]} = "{c}"', f'{PASCAL[f2]} = "a{c}b{c}"'])
+    # the same TEXT as the value of fields of different kinds (a number that is also a title, a Player2 word that is also a
+    # genre): what a value means is decided by its field, not by what else was spelled that way
+    for _ in range(ctx.pick(60, 1200)):
+        n = str(r.choice([0, 1, 5, 7, 192, 480, 2112, r.randrange(0, 10**6)]))
+        word = r.choice(["bass", "rhythm"])
+        sf = r.sample(STR_FIELDS, 3)
+        body = [f"Resolution = {n if n not in ('0',) else '192'}", f'{PASCAL[sf[0]]} = "{n}"', f"Offset = {n}", f'{PASCAL[sf[1]]} = "{word}"', f"Player2 = {word}",
+                f"Difficulty = {n}", f'{PASCAL[sf[2]]} = "{n}"', f"PreviewStart = {n}"]
+        r.shuffle(body)
+        bodies.append(body)
     for w in keyword_like_words()[:: ctx.pick(3, 1)]:
         f1 = r.choice(STR_FIELDS)
         bodies.append(["Resolution = 192", f'{PASCAL[f1]} = "{w}"'])
